@@ -32,6 +32,11 @@ CHECKS = {
         text="On every pool: cmp takes values in {-1,0,1}, is zero exactly on eq pairs, antisymmetric and transitive (also across eq), RCPBasicKeyLess is a strict weak order whose equivalence is eq, comparisons never throw, and std::set/std::map iterate identically after different insertion orders. Small per-class universes are enumerated exhaustively, larger ones generated. Exploration.",
         note="Members that contain NaN doubles (not equal to themselves) are excluded from the laws that presuppose reflexivity and counted.",
         variants=["main"]),
+    "C04": dict(
+        engine="hy", technique="property-based testing (metamorphic): generated multisets of exact operands built in every permutation and every binary bracketing, pairwise and n-ary; all results must be eq with equal hash, str and raw tree",
+        text="For each generated multiset of 2-6 exact operands the sum/product/max/min/and/or is constructed in all (n<=4) or 30 sampled permutations, through the n-ary constructor and through every full binary bracketing of the binary one; the driver's all-pairs eq matrix, hashes, printed forms and raw dumps (up to dictionary order) must coincide. Exploration.",
+        note="Operands are exact by construction (no floats). Exceptions raised in only some orders are counted, not reported.",
+        variants=["main"]),
 }
 
 NOT_APPLICABLE = {}
